@@ -17,12 +17,12 @@ import (
 // C16 — EAP-AKA' key hierarchy follows PRF' of RFC 5448 / RFC 9048.
 
 type c16Case struct {
-	IK    int  `json:"ik_len"`
-	CK    int  `json:"ck_len"`
-	ID    int  `json:"identity_len"`
-	Pat   int  `json:"identity_pattern"`
-	Shift bool `json:"shifted_followup"` // a second derivation whose CK'/identity boundary is moved by one octet (same concatenation)
-	GC    bool `json:"held_across_gc,omitempty"`
+	IK     int      `json:"ik_len"`
+	CK     int      `json:"ck_len"`
+	ID     int      `json:"identity_len"`
+	Pat    int      `json:"identity_pattern"`
+	Shift  bool     `json:"shifted_followup"` // a second derivation whose CK'/identity boundary is moved by one octet (same concatenation)
+	GC     bool     `json:"held_across_gc,omitempty"`
 	Before *c16Case `json:"derivation_before,omitempty"` // the derivation whose results the caller still holds while this one runs
 }
 
